@@ -387,8 +387,10 @@ func (a *analysis) oracleC17() verdict {
 			if a.first[bi] != lp+1 {
 				return a.fv("handover-gap", "bar %d was queued after bar %d before the cycle of %d's last frame (%d) began, but first appears in frame %d, not %d", bi, p, p, lp, a.first[bi], lp+1)
 			}
-			if m := a.rankMsg(bi, p); m != "" {
-				return a.fv("handover-rank", "%s", m)
+			if a.leavingKind(p) == "replaced" && a.queuedBeforeFlush(bi, p) {
+				if m := a.rankMsg(bi, p); m != "" {
+					return a.fv("handover-rank", "%s", m)
+				}
 			}
 		} else {
 			late = true
@@ -429,6 +431,26 @@ func (a *analysis) oracleC17() verdict {
 	return held(nt || late)
 }
 
+// queuedBeforeFlush: b's Add executed before flush met p's second terminal
+// frame (both events fire in the container goroutine): only then does b take
+// over p's place and priority.
+func (a *analysis) queuedBeforeFlush(b, p int) bool {
+	var t1, tAdd int64
+	for _, h := range a.hooks() {
+		switch h.P {
+		case hpFlushBar:
+			if h.Bar == p && h.A == 1 && t1 == 0 {
+				t1 = h.T
+			}
+		case hpAdd:
+			if h.Bar == b {
+				tAdd = h.T
+			}
+		}
+	}
+	return tAdd != 0 && (t1 == 0 || tAdd < t1)
+}
+
 // rankMsg: successor b takes predecessor p's place relative to the bars common to both frames.
 func (a *analysis) rankMsg(b, p int) string {
 	fp, fb := a.frames[a.last[p]], a.frames[a.first[b]]
@@ -437,9 +459,6 @@ func (a *analysis) rankMsg(b, p int) string {
 		if o.Op.K == "prio" || o.Op.K == "setprio" {
 			return ""
 		}
-	}
-	if a.sc.Pop {
-		return ""
 	}
 	pos := func(f Frame, id int) int {
 		for i, g := range f.Groups {
@@ -450,10 +469,24 @@ func (a *analysis) rankMsg(b, p int) string {
 		return -1
 	}
 	pp, pb := pos(fp, p), pos(fb, b)
+	basePrio := func(id int) int {
+		if pr := a.sc.Bars[id].Prio; pr != nil {
+			return *pr
+		}
+		for ord, x := range a.addOrder {
+			if x == id {
+				return ord
+			}
+		}
+		return -1 << 40
+	}
 	for _, g := range fp.Groups {
 		c := g.ID
 		if c == p || a.sc.Bars[c].After == p {
 			continue
+		}
+		if basePrio(c) == basePrio(p) {
+			continue // equal priorities: any order
 		}
 		cb := pos(fb, c)
 		if cb < 0 {
@@ -463,6 +496,13 @@ func (a *analysis) rankMsg(b, p int) string {
 			continue // c itself inherited a priority
 		}
 		cp := pos(fp, c)
+		if a.sc.Pop {
+			// finished bars move to the top between the two frames: only bars running in both count
+			gp, gb := fp.find(c), fb.find(c)
+			if gp == nil || gb == nil || gp.C || gp.A || gb.C || gb.A {
+				continue
+			}
+		}
 		if (cp < pp) != (cb < pb) {
 			return fmt.Sprintf("bar %d replaces bar %d but not in its position: bar %d was %s it, is now %s its successor (frames %d -> %d: %v -> %v)", b, p, c, abv(cp < pp), abv(cb < pb), a.last[p], a.first[b], fp.ids(), fb.ids())
 		}
@@ -645,7 +685,7 @@ func (a *analysis) oracleC06() verdict {
 	// successors keep the predecessor's position (C17 rank rule) when no update interferes
 	for bi, spec := range sc.Bars {
 		p := spec.After
-		if p >= 0 && a.first[bi] >= 0 && a.first[p] >= 0 && a.first[bi] == a.last[p]+1 {
+		if p >= 0 && a.first[bi] >= 0 && a.first[p] >= 0 && a.first[bi] == a.last[p]+1 && a.queuedBeforeFlush(bi, p) {
 			if m := a.rankMsg(bi, p); m != "" {
 				return a.fv("successor-rank", "%s", m)
 			}
@@ -1002,6 +1042,33 @@ func (a *analysis) oracleC15() verdict {
 	for bi, pw := range rr.postWait {
 		if rr.bar(bi) != nil && pw.Running {
 			return a.fv("running-after-error", "bar %d still running after the container shut down on a render error", bi)
+		}
+	}
+	if sc.Notifier {
+		if len(rr.notif) != 1 {
+			return a.fv(fmt.Sprintf("notifier:%d:%s", len(rr.notif), site), "after a render error the shutdown notifier delivered %d values", len(rr.notif))
+		}
+		seen := map[int]bool{}
+		for _, b := range rr.notif[0] {
+			if b < 0 || seen[b] {
+				return a.fv("notifier-dup:"+site, "notifier list after a render error has unknown or duplicate bars: %v", rr.notif[0])
+			}
+			seen[b] = true
+		}
+		// bars the last good frame shows running are still in the container (only the failed bar is dropped)
+		if n := len(a.frames); n > 0 && site != "output" {
+			lf := a.frames[n-1]
+			for _, g := range lf.Groups {
+				if g.ID < 0 || g.ID >= len(sc.Bars) || g.C || g.A {
+					continue
+				}
+				if sc.Bars[g.ID].FailAt > 0 || sc.Bars[g.ID].ExtFailAt > 0 {
+					continue
+				}
+				if !seen[g.ID] {
+					return a.fv("notifier-missing:"+site, "bar %d was running in the last frame before the render error and did not fail, but the shutdown notifier's list %v lacks it", g.ID, rr.notif[0])
+				}
+			}
 		}
 	}
 	return held(true)
